@@ -1,11 +1,11 @@
 CONSTANTS
   Local = "L"
   MaxOps = 3
-  Variant = "and"
+  Variant = "emptyset"
   Node <- MCNode
   Delegates <- MCDelegates
   NsStates <- MCNsStates
   IdStates <- MCIdStates
 INIT Init
 NEXT Next
-INVARIANTS OnlyStrangersRemoved
+INVARIANTS ProtectedUntouched
